@@ -99,7 +99,9 @@ func (d *Driver) sample() {
 					if st.Token != o.termToken {
 						d.h.violate("C18", "leader-status-token", fmt.Sprintf("i%d.%d leads term token %s but Status().Token=%s", in.idx, o.gen, short(o.termToken), short(st.Token)), now, d.step)
 					}
-					if !o.lateAck && st.Revision != o.lastAckRev {
+					// (after the application cancelled the Start context the run's loops are gone: an
+					// acknowledgement that arrives then has no receiver until the claim is given up)
+					if !o.lateAck && !o.startCtxCancelled && st.Revision != o.lastAckRev {
 						d.h.violate("C18", "leader-status-revision", fmt.Sprintf("i%d.%d leads; latest acknowledged write rev=%d but Status().Revision=%d", in.idx, o.gen, o.lastAckRev, st.Revision), now, d.step)
 					}
 				}
@@ -111,11 +113,20 @@ func (d *Driver) sample() {
 				// watch loop can be busy with back-to-back periodic checks and the moment it drains
 				// its event channel depends on select fairness, for which the statement gives no number
 				rf, rfEnd := d.readFaultFor(in.idx)
-				if cur && in.running && !isL && in.watchOK && !rf && p.Store.Req[1]+p.Store.Resp[1] < 250*time.Millisecond {
+				// a started instance whose first attempt lost is a follower once that attempt has
+				// returned (at most a Create and a takeover read) and its Watch call has been answered:
+				// three operation latencies after Start returned, watching or not (an instance that
+				// never gets that far does not converge either)
+				lam := p.Store.Req[1] + p.Store.Resp[1]
+				watching, since := in.watchOK, in.watchOKAt
+				if !watching && !d.faultyFor(in.idx) && in.startedAt > 0 && now > in.startedAt+3*lam+200*time.Millisecond+p.Sched.StallMax*4 && !d.opFaultedSince(in.idx, in.startInvAt) {
+					watching, since = true, in.startedAt+3*lam+200*time.Millisecond
+				}
+				if cur && in.running && !isL && watching && !rf && lam < 250*time.Millisecond {
 					if ow := d.owners[in.cfg.Group]; ow != nil && ow.id != in.cfg.ID {
 						t0 := ow.since
-						if in.watchOKAt > t0 {
-							t0 = in.watchOKAt
+						if since > t0 {
+							t0 = since
 						}
 						if rfEnd > t0 {
 							t0 = rfEnd
@@ -157,6 +168,21 @@ func (d *Driver) sample() {
 }
 
 // faultyFor reports whether a fault window currently covers the instance.
+// opFaultedSince: one of the instance's operations invoked at or after t was hit by a fault (or
+// is still on its way).
+func (d *Driver) opFaultedSince(inst int, t time.Duration) bool {
+	for i := len(d.h.Ops) - 1; i >= 0; i-- {
+		op := d.h.Ops[i]
+		if op.TInvoke < t {
+			break
+		}
+		if op.Inst == inst && (op.Fault != "" || op.TRet < 0) {
+			return true
+		}
+	}
+	return false
+}
+
 func (d *Driver) faultyFor(inst int) bool {
 	now := d.lastNow
 	for i := range d.plan.Faults {
